@@ -3,9 +3,9 @@
 //! under the control of the generated case.
 //!
 //! "Connection refused" is produced without ever giving the port away: every
-//! slot keeps a bound, non-listening socket (SO_REUSEPORT, no SO_REUSEADDR) for the whole case,
-//! and a second socket on the same port listens only while the behaviour is
-//! not `Refuse`.  A SYN to a port without a listening socket is answered with
+//! worker thread keeps three bound, non-listening sockets (SO_REUSEPORT, no SO_REUSEADDR)
+//! for all its cases, and a second socket on the same port listens only while the
+//! behaviour of the slot is not `Refuse`.  A SYN to a port without a listening socket is answered with
 //! RST, and no other process can be handed the port in between.
 
 use serde::{Deserialize, Serialize};
@@ -274,10 +274,30 @@ pub fn resolve(pts: &[Pt], resp: &[u8]) -> Vec<usize> {
 // ---------------------------------------------------------------------------
 // slots
 
+thread_local! {
+    /// The three ports of this worker thread, reserved once (bound, never listening) and
+    /// reused by all its cases, which run one after the other: thousands of cases do not
+    /// churn through the ephemeral port range (ports with TIME_WAIT sockets are not handed
+    /// out again by bind(0) for a minute).
+    static RESERVED: std::cell::RefCell<Vec<(TcpSocket, u16)>> = const { std::cell::RefCell::new(Vec::new()) };
+}
+
+fn reserved_port(id: u8) -> std::io::Result<u16> {
+    RESERVED.with(|r| {
+        let mut r = r.borrow_mut();
+        while r.len() <= id as usize {
+            let s = sock()?;
+            s.bind(std::net::SocketAddr::from(([127, 0, 0, 1], 0)))?;
+            let port = s.local_addr()?.port();
+            r.push((s, port));
+        }
+        Ok(r[id as usize].1)
+    })
+}
+
 pub struct Slot {
     pub id: u8,
     pub port: u16,
-    _reserve: TcpSocket,
     beh: Arc<Mutex<AnyBeh>>,
     task: Option<JoinHandle<()>>,
     shared: Arc<Shared>,
@@ -295,10 +315,8 @@ fn sock() -> std::io::Result<TcpSocket> {
 
 impl Slot {
     pub async fn start(id: u8, beh: AnyBeh, shared: Arc<Shared>, seed: u64) -> std::io::Result<Slot> {
-        let reserve = sock()?;
-        reserve.bind(std::net::SocketAddr::from(([127, 0, 0, 1], 0)))?;
-        let port = reserve.local_addr()?.port();
-        let mut s = Slot { id, port, _reserve: reserve, beh: Arc::new(Mutex::new(AnyBeh::Http(HttpBeh::Refuse))), task: None, shared, seed };
+        let port = reserved_port(id)?;
+        let mut s = Slot { id, port, beh: Arc::new(Mutex::new(AnyBeh::Http(HttpBeh::Refuse))), task: None, shared, seed };
         s.set(beh).await?;
         Ok(s)
     }
